@@ -724,8 +724,34 @@ func runExclude(w *out.W, tier string) {
 		coin(exCase{op, false, false, []string{"main.*", "*.main"}, rC})
 	}
 	w.Set("coincide_cases", nCoin)
+	// ---- names that only a real glob tells apart (round 4, globonly.go): underscore positions, letter case,
+	// literal % _ [ ] \ * in names, '?' next to '_' in patterns; schemas main / Main / maXn
+	nGlob := 0
+	rG := globOnlyRealm()
+	gl := func(c exCase) { nGlob++; runExCase(w, c) }
+	for _, p := range globOnlyTablePats {
+		gl(exCase{"R", true, true, []string{"main." + p}, rG})
+		gl(exCase{"R", true, true, []string{"*." + p}, rG})
+		gl(exCase{"R", true, true, []string{"m*." + p + "[type=table]"}, rG})
+		gl(exCase{"S0", true, true, []string{p}, rG})
+		gl(exCase{"S2", true, true, []string{p}, rG})
+	}
+	for _, p := range append([]string{"fk_u", "fk?u", "FK*", "ck_1", "ck?1", "ck", "CK*", "c?", "*_*[type=fk|check]"}, globOnlyChildPats...) {
+		gl(exCase{"R", true, true, []string{"main.users." + p}, rG})
+		gl(exCase{"R", false, false, []string{"main.users." + p}, rG})
+		gl(exCase{"R", true, true, []string{"*.*." + p}, rG})
+		gl(exCase{"S0", true, true, []string{"users." + p}, rG})
+		gl(exCase{"S0", false, true, []string{"user?." + p, "USERS." + p}, rG})
+	}
+	for _, p := range globOnlySchemaPats {
+		gl(exCase{"R", true, true, []string{p}, rG})
+		gl(exCase{"R", true, true, []string{p + ".users"}, rG})
+		gl(exCase{"R", true, true, []string{p + ".*.id"}, rG})
+		gl(exCase{"R", true, true, []string{p + ".user_*", "maXn"}, rG})
+	}
+	w.Set("glob_only_cases", nGlob)
 	w.Exhaust = true
-	w.Set("exhaustive_bound", "every pattern schema-atom[sel].table-atom[sel].child-atom[sel] over 5x3, 5x3, 9x12 atoms/selectors on a fixed realm (2 schemas, 3 tables, columns/pk/indexes/fks/checks); all ordered pairs (thorough: triples) of 12 patterns; realm with equal names across levels (main/secret/t1 as schema, table, column, index, fk, check): every pattern over 5 atoms x {3,3,7} selectors with 1-3 components at realm scope and 1-2 components at the scope of each of its 3 schemas")
+	w.Set("exhaustive_bound", "every pattern schema-atom[sel].table-atom[sel].child-atom[sel] over 5x3, 5x3, 9x12 atoms/selectors on a fixed realm (2 schemas, 3 tables, columns/pk/indexes/fks/checks); all ordered pairs (thorough: triples) of 12 patterns; realm with equal names across levels (main/secret/t1 as schema, table, column, index, fk, check): every pattern over 5 atoms x {3,3,7} selectors with 1-3 components at realm scope and 1-2 components at the scope of each of its 3 schemas; realm with names that only a glob tells apart (users/user_sessions/userXsessions, logs/log_1, Audit, a%b a_b aXb a*b t[1] a\\b; schemas main/Main/maXn): every listed table, child and schema pattern at realm and schema scope")
 	// ---- seeded random realms x pattern lists
 	r := rng.FromEnv(0xE1C)
 	sn := []string{"s", "s1", "main", "ab", "a-b"}
